@@ -68,10 +68,11 @@ def obligations(tier):
               "h_fprintf#2": 2, "harness#0": 4, "harness#1": 4, "memcpy#0": 3, "memcpy#1": 5, "memcmp#0": 5, "memset#0": 5,
               "memset#1": 30, "HTAB_string_t_do#0": 13, "VARR_charpush_arr#0": 2, "strlen#0": 2}
     ml = 3 if thorough else 2
-    obs.append(Ob("str.nulterm.len%d" % ml, "C10/str.c", defs=SDEFS + ["H_MAXLEN=%d" % ml, "H_NULTERM=1"], loops=sloops, unwind=4,
-                  checks="functional", object_bits=12, timeout=900,
-                  sample="every byte string of length <= %d that is empty or ends in NUL: MIR_output_str -> scan_string gives the "
-                         "same bytes and length, consuming exactly the text" % ml))
+    for nl in ((2, 3) if not thorough else (3,)):   # length 3 (a non-printable byte followed by a digit, then NUL) is cheap: also in quick
+        obs.append(Ob("str.nulterm.len%d" % nl, "C10/str.c", defs=SDEFS + ["H_MAXLEN=%d" % nl, "H_NULTERM=1"], loops=sloops, unwind=4,
+                      checks="functional", object_bits=12, timeout=900,
+                      sample="every byte string of length <= %d that is empty or ends in NUL: MIR_output_str -> scan_string gives the "
+                             "same bytes and length, consuming exactly the text" % nl))
     obs.append(Ob("str.any.len%d" % ml, "C10/str.c", defs=SDEFS + ["H_MAXLEN=%d" % ml, "H_NULTERM=0"], loops=sloops, unwind=4,
                   checks="functional", object_bits=12, timeout=900,
                   sample="every byte string of length <= %d: MIR_output_str -> scan_string gives the same bytes and length" % ml))
